@@ -278,9 +278,21 @@ class ProblemCall(Unit):
         pb._n_eval = SI(nev0)      # the evaluation counter of Problem (|H| by the object invariant)
         c.assume(obj.n_eval.t == z3.If(z3.BoolVal(fun_is_none), 0, nev0))
 
-        def nonlinear(xf):
-            c.log.append(("con", xf))
-            return cub, ceq
+        class NL:
+            """contract of NonlinearConstraints.__call__ / .n_eval: the counter is SciPy's nfev of the first constraint object (0 when
+            there is no nonlinear constraint), at most one more per call"""
+            def __init__(self):
+                self.has = z3.Bool(c.fresh_name("has_nonlinear_constraints"))
+                self.n_eval = SI(z3.Int(c.fresh_name("nl_n_eval")))
+                c.assume(z3.If(self.has, z3.And(self.n_eval.t >= 0, self.n_eval.t <= nev0), self.n_eval.t == 0))
+
+            def __call__(self, xf):
+                c.log.append(("con", xf))
+                k_ = z3.Int(c.fresh_name("nl_n_eval"))
+                c.assume(z3.If(self.has, z3.And(k_ >= self.n_eval.t, k_ <= self.n_eval.t + 1), k_ == 0))
+                self.n_eval = SI(k_)
+                return cub, ceq
+        nonlinear = NL()
 
         def maxcv(x, cv=None, ce=None):
             c.log.append(("maxcv", x, cv is cub, ce is ceq))
